@@ -15,7 +15,7 @@ def check(tier, seed):
         "ghost falling factorial ff with the law ff(n,a+b) = ff(n,a) ff(n-a,b), ff(n,0) = 1, ff(n,1) = n (instances generated per obligation)",
     ]
     d.not_decided += [
-        "__add__/__sub__/__neg__/_eval_adjoint/_expand_operators/_combine_operators/__pow__/from_expr/as_expr are not under deductive contract: "
+        "_expand_operators/_combine_operators/__pow__/__sub__ (= add of neg)/from_expr/as_expr are not under deductive contract: "
         "they are exercised by the bounded battery (matrix representation) only",
         "Function arguments, non-integer powers, _poly_simplify / simplify (A-SY2), printing",
         "associativity / distributivity / adjoint-reverses-products are consequences of faithfulness of _multiply_op, _multiply_expr and __mul__ "
@@ -25,6 +25,9 @@ def check(tier, seed):
                      "for an arbitrary term (symbolic powers, symbolic occupation state, uninterpreted coefficient function) and proved to act on occupation "
                      "states exactly as the operator product they stand for, including Jordan-Wigner signs; __mul__ is proved to apply the factors of each "
                      "term of the right operand in the order in which the term denotes them (creators ascending, number part, annihilators descending), "
-                     "using the callee contracts.  Number of modes is concrete per unit (bounded), everything else symbolic.")
+                     "using the callee contracts.  _eval_adjoint is proved to be the adjoint with respect to the Fock inner product (matrix elements between every pair of physical "
+                     "occupation states, norms of the unnormalised boson basis and Jordan-Wigner signs included); __neg__ negates every amplitude; __add__ adds each term's coefficient "
+                     "to the entry of its own powers (so the result denotes the sum, by linearity of a term in its coefficient).  Number of modes is concrete per unit (bounded), "
+                     "everything else symbolic.")
     d.run_battery("nof_battery.py", ["algebra", "convert"], "<= 4 modes of mixed statistics, powers <= 2, Fock cutoff 6-9, 72 random triples + 14 expressions, fixed seeds")
     return d.finish(level="proof", trusted_base=["contracts/nof.py", "concretiser/fock.py (battery oracle only)"])
